@@ -558,3 +558,61 @@ pub fn e_choice<const N: usize, S: Src>(src: &mut S) {
     }
 }
 
+
+// --------------------------------------------------------------------------------------------
+// C20 U-part: the runtime matchers have no memory of earlier calls (two calls, both with symbolic parameters;
+// the second result must still be what the syntax reference says)
+
+pub fn h_two_insensitive_literals<const N: usize, const L: usize, S: Src>(src: &mut S) {
+    let i1 = draw_in::<N, S>(src);
+    let l1 = draw_lit::<L, S>(src);
+    let i2 = draw_in::<N, S>(src);
+    let l2 = draw_lit::<L, S>(src);
+    let (t1, p1) = constrain(src, &i1);
+    let (t2, p2) = constrain(src, &i2);
+    let lit1 = leak_lit(src, &l1);
+    let lit2 = leak_lit(src, &l2);
+    let mut k = 0;
+    while k < L {
+        if k < l1.len { src.assume(l1.bytes[k] < 0x80 && lower(l1.bytes[k]) == l1.bytes[k]); }
+        if k < l2.len { src.assume(l2.bytes[k] < 0x80 && lower(l2.bytes[k]) == l2.bytes[k]); }
+        k += 1;
+    }
+    let first = parse_string_literal_insensitive(state_at(src, t1, p1), lit1);
+    let b = &i2.bytes[..i2.len];
+    let mut m = p2 + l2.len <= b.len();
+    let mut k = 0;
+    while m && k < l2.len {
+        if lower(b[p2 + k]) != l2.bytes[k] { m = false; }
+        k += 1;
+    }
+    let want = if m { Some(l2.len) } else { None };
+    vcover!(src, first.is_ok() && l1.len >= 2 && l1.bytes[0] < b'a' && m && l2.len >= 2 && b[p2] != l2.bytes[0], "letterless literal first, then a match through case folding");
+    vcover!(src, first.is_err() && !m, "both fail");
+    let r = parse_string_literal_insensitive(state_at(src, t2, p2), lit2);
+    judge(src, b, p2, &r, want);
+    std::mem::forget(first);
+}
+
+pub fn h_two_whitespace_ranges<const N: usize, S: Src>(src: &mut S) {
+    let i1 = draw_in::<N, S>(src);
+    let i2 = draw_in::<N, S>(src);
+    let from = src.char();
+    let to = src.char();
+    let (t1, p1) = constrain(src, &i1);
+    let (t2, p2) = constrain(src, &i2);
+    let _ = parse_Whitespace(state_at(src, t1, p1), ());
+    let _ = parse_character_range(state_at(src, t1, p1), from, to);
+    let b = &i2.bytes[..i2.len];
+    let mut k = 0;
+    while p2 + k < b.len() {
+        let c = b[p2 + k];
+        if c == 9 || c == 10 || c == 12 || c == 13 || c == 32 { k += 1; } else { break; }
+    }
+    vcover!(src, k >= 1 && i1.len == i2.len, "second input of the same length starts with blanks");
+    let r = parse_Whitespace(state_at(src, t2, p2), ());
+    judge(src, b, p2, &r, Some(k));
+    let want2 = if p2 < b.len() { let (v, n) = vrt::decode_at(b, p2); if from as u32 <= v && v <= to as u32 { Some(n) } else { None } } else { None };
+    let r2 = parse_character_range(state_at(src, t2, p2), from, to);
+    judge(src, b, p2, &r2, want2);
+}
